@@ -11,7 +11,7 @@ theorem suspend_not_run_until_resumed (s s' : St) (e : Ev) (hs : step s e = some
     (hb : s.loc u = .blocked) (hleave : s'.loc u ≠ .blocked) : s.resumed u = true := by
   cases e <;>
     simp only [step, stepCreate, stepPush, stepPop, stepSetSt, stepRun, stepUserStart, stepUserEnd, stepCb, stepIncB,
-      stepDecB, stepResume, stepFinish, stepTerminate, stepFree, stepReqSet, stepReqClr, stepMigrate, stepJoinRet] at hs <;>
+      stepDecB, stepResume, stepFinish, stepTerminate, stepFree, stepReqSet, stepReqClr, stepMigrate, stepJoinRet, stepXferB] at hs <;>
     (repeat' (split at hs)) <;> (try cases hs) <;> simp_all [setLoc, upd] <;> grind
 
 /-- the `resumed` mark is set only by a resume event for that unit, which requires the unit to be completely suspended
@@ -28,7 +28,7 @@ theorem resume_runs_exactly_once (s s' : St) (e : Ev) (hs : step s e = some s') 
     (hb : s.loc u = .blocked) (hleave : s'.loc u ≠ .blocked) : s'.resumed u = false := by
   cases e <;>
     simp only [step, stepCreate, stepPush, stepPop, stepSetSt, stepRun, stepUserStart, stepUserEnd, stepCb, stepIncB,
-      stepDecB, stepResume, stepFinish, stepTerminate, stepFree, stepReqSet, stepReqClr, stepMigrate, stepJoinRet] at hs <;>
+      stepDecB, stepResume, stepFinish, stepTerminate, stepFree, stepReqSet, stepReqClr, stepMigrate, stepJoinRet, stepXferB] at hs <;>
     (repeat' (split at hs)) <;> (try cases hs) <;> simp_all [setLoc, upd] <;> grind
 
 /-- **resume-race safety**: in every reachable state a unit whose state reads BLOCKED is at the blocked location: its
